@@ -97,6 +97,7 @@ service:
     - {mode: global, labels: [FOO=BAR]}
     - {labels: {a: b}}
     - {update_config: {parallelism: 3, delay: 10s, failure_action: continue, monitor: 60s, max_failure_ratio: 0.3, order: start-first}}
+    - {update_config: {delay: 100us, monitor: 2500us}}
     - {rollback_config: {parallelism: 0, delay: 1m30s, failure_action: pause, monitor: 1500ms, max_failure_ratio: 0.5, order: stop-first}}
     - {resources: {limits: {cpus: "0.001", memory: 50M, pids: 100}}}
     - {resources: {limits: {cpus: 1.5, memory: 1gb}, reservations: {cpus: "0.0001", memory: 20M}}}
